@@ -701,7 +701,9 @@ def finish(prop, mod, tier, args, results, viol_docs, t_start):
             'real_components': REAL_COMPONENTS + getattr(mod, 'REAL', []),
             'stub_components': STUB_COMPONENTS + getattr(mod, 'STUBS', []),
             'harness_error_samples': [r['reason'][:600] for r in herr[:3]],
-            'inconclusive_samples': [r['reason'][:200] for r in inconcl[:3]],
+            'inconclusive_samples': ['seed %s: %s' % (r.get('seed'),
+                                                     r['reason'][:200])
+                                     for r in inconcl[:3]],
         },
         'assumptions': [
             'SQLite serialises whole transactions (as the code itself does '
